@@ -151,6 +151,42 @@ Proof.
   apply bal_after_other; intros Heq; inversion Heq; congruence.
 Qed.
 
+(** ** blacklisting (launchpad: refund and flag; no guarantee or NFT bookkeeping) *)
+Lemma bl_one_only e w a w' :
+  bl_one e w a = Ok w' -> exists c bl, st w' = st w <| confirmed := c |> <| blacklisted := bl |>.
+Proof.
+  unfold bl_one. intros E.
+  apply bind_ok in E. destruct E as (u1 & _ & E). apply bind_ok in E. destruct E as (u2 & _ & E).
+  apply bind_ok in E. destruct E as (w1 & Hw1 & E). inversion E; subst w'; clear E. rewrite st_set_st.
+  destruct (0 <? confirmed (st w) a).
+  - apply bind_ok in Hw1. destruct Hw1 as (w2 & Hr & Hw1). inversion Hw1; subst w1; clear Hw1.
+    apply refund_tf in Hr. rewrite st_set_st, Hr. eexists _, _. reflexivity.
+  - inversion Hw1; subst w1. exists (confirmed (st w)), (upd (blacklisted (st w)) a true). destruct (st w); reflexivity.
+Qed.
+
+Lemma Pre_bl_one e w l a w' : Pre w l -> a <> sc_addr -> bl_one e w a = Ok w' -> Pre w' l.
+Proof.
+  intros [[Hop Hch Hown Hnd Hcf Hfresh Hpay Hnone] Htok Hknown] Hasc E.
+  pose proof (PayInv_blacklist e w a w' _ Hasc Hpay E) as Hpay'.
+  destruct (bl_one_only _ _ _ _ E) as (c & bl & Hs).
+  apply bl_one_spec in E. cbn zeta in E. destruct E as (_ & _ & _ & Hc0 & Hoth & _).
+  constructor; [constructor|..]; rewrite ?Hs; auto.
+  - eapply chain_neutral; [|exact Hch]. reflexivity.
+  - eapply owned_other; [exact Hown|]. intros; reflexivity.
+  - rewrite Forall_forall in *. intros [x n0] Hin. pose proof (Hcf _ Hin) as Hc1. cbn [fst snd] in *.
+    rewrite <- Hs. destruct (N.eq_dec x a) as [->|Hne]; [rewrite Hc0; split; [lia|apply Hc1]|].
+    destruct (Hoth x Hne) as [Hcx _]. rewrite Hcx. exact Hc1.
+Qed.
+
+Lemma Pre_blacklist_loop e : forall la w l w',
+  Pre w l -> ~ In sc_addr la -> blacklist_loop e w la = Ok w' -> Pre w' l.
+Proof.
+  induction la as [|a la IH]; intros w l w' Hp Hsc E; [inversion E; subst; exact Hp|].
+  rewrite blacklist_loop_cons in E. apply bind_ok in E. destruct E as (w1 & H1 & E).
+  eapply IH; [|intros Hi; apply Hsc; now right|exact E].
+  eapply Pre_bl_one; [exact Hp| |exact H1]. intros ->. apply Hsc. now left.
+Qed.
+
 Section HSetup.
 Variable H : list N -> list N.
 
@@ -163,7 +199,9 @@ Inductive setup_call : call -> Prop :=
 | sc_conf r : setup_call (CSetConf r)
 | sc_ws r : setup_call (CSetWs r)
 | sc_claim r : setup_call (CSetClaim r)
-| sc_support a : setup_call (CSetSupport a).
+| sc_support a : setup_call (CSetSupport a)
+| sc_blacklist la : ~ In sc_addr la -> setup_call (CBlacklist la)
+| sc_tpt a : setup_call (CSetTpt a).
 
 Lemma no_payment_nil p u : no_payment p = Ok u -> p = [].
 Proof. unfold no_payment. destruct p; [reflexivity|discriminate]. Qed.
@@ -175,7 +213,7 @@ Proof.
   intros Hpre Hc Hwf Hcs E.
   set (w0 := w <| evs := [] |> <| rlog := [] |> <| locks := [] |> <| seeds := sd |>).
   assert (Hpre0 : Pre w0 l) by (eapply Pre_ext; [| |exact Hpre]; reflexivity).
-  destruct Hc as [la Hpos Hsc | | n | | | r0 | r0 | r0 | a].
+  destruct Hc as [la Hpos Hsc | | n | | | r0 | r0 | r0 | a | la Hsc | a].
   - (* allocation *)
     unfold exec in E. cbn [payable] in E. fold w0 in E.
     apply bind_ok in E. destruct E as (u & Hnp & E). apply no_payment_nil in Hnp. rewrite Hnp in E. cbn [credit_payment bind] in E.
@@ -268,53 +306,85 @@ Proof.
     cbn [dispatch] in E. unfold ret0 in E. mon_inv.
     match goal with Hd : set_support_address _ _ _ = Ok _ |- _ => unfold set_support_address in Hd; mon_inv end.
     exists l. eapply Pre_neutral; [| |exact Hpre0]; [rewrite st_set_st; unfold neutral; cbn; repeat split | reflexivity].
+  - (* blacklisting *)
+    unfold exec in E. cbn [payable] in E. fold w0 in E.
+    apply bind_ok in E. destruct E as (u & Hnp & E). apply no_payment_nil in Hnp. rewrite Hnp in E. cbn [credit_payment bind] in E.
+    cbn [dispatch] in E. unfold ret0, blacklist_endpoint in E. cbn [has_nft] in E. mon_inv.
+    match goal with Hd : add_users_to_blacklist _ _ _ = Ok _ |- _ => unfold add_users_to_blacklist in Hd; mon_inv end.
+    exists l. eapply Pre_blacklist_loop; eauto.
+  - (* tokens per ticket *)
+    unfold exec in E. cbn [payable] in E. fold w0 in E.
+    apply bind_ok in E. destruct E as (u & Hnp & E). apply no_payment_nil in Hnp. rewrite Hnp in E. cbn [credit_payment bind] in E.
+    cbn [dispatch] in E. unfold ret0 in E. mon_inv.
+    match goal with Hd : set_launchpad_tokens_per_winning_ticket _ _ _ = Ok _ |- _ =>
+      unfold set_launchpad_tokens_per_winning_ticket, try_set_tpt in Hd; mon_inv end.
+    exists l. eapply Pre_neutral; [| |exact Hpre0]; [rewrite st_set_st; unfold neutral; cbn; repeat split | reflexivity].
 Qed.
 
+(** launchpad-locked-tokens runs the same code for these transactions *)
+Definition plain (v : variant) : Prop := v = Base \/ v = Lock.
+
+Lemma exec_plain v e b sd w c : plain v -> setup_call c -> exec H v e b sd w c = exec H Base e b sd w c.
+Proof. intros [-> | ->] Hc; [reflexivity|]. destruct Hc; reflexivity. Qed.
+
+Corollary Pre_exec_plain v e b sd w l c w' r :
+  plain v -> Pre w l -> setup_call c -> pay_wf (pay e) -> caller e <> sc_addr ->
+  exec H v e b sd w c = Ok (w', r) -> exists l', Pre w' l'.
+Proof. intros Hv Hp Hc Hwf Hcs E. rewrite (exec_plain v _ _ _ _ _ Hv Hc) in E. eapply Pre_exec; eauto. Qed.
+
 (** deployment *)
-Lemma deploy_Pre e lp tpt0 ptok price0 nrw conf ws claim x s :
-  deploy Base e lp tpt0 ptok price0 nrw conf ws claim x = Ok s -> lp <> egld -> Pre (world0 s) [].
+Lemma deploy_Pre v e lp tpt0 ptok price0 nrw conf ws claim x s :
+  plain v -> deploy v e lp tpt0 ptok price0 nrw conf ws claim x = Ok s -> lp <> egld -> Pre (world0 s) [].
 Proof.
-  intros E Hlp. unfold deploy in E. cbn [has_nft is_v1 has_lock has_extra negb] in E. mon_inv.
-  match goal with Hi : init_base _ _ _ _ _ _ _ _ _ _ = Ok _ |- _ => rename Hi into Hinit end.
+  intros Hv E Hlp. unfold deploy in E.
+  assert (Hs : exists s0 pct un la, init_base e lp tpt0 ptok price0 nrw conf ws claim true = Ok s0 /\
+             (s = s0 \/ s = s0 <| lock_pct := pct |> <| unlock_epoch := un |> <| lock_sc := la |>)).
+  { destruct Hv as [-> | ->]; cbn [has_nft is_v1 has_lock has_extra negb] in E; mon_inv.
+    - eexists _, 0, 0, 0. split; [eassumption|left; reflexivity].
+    - match goal with Hl : lock_init _ _ _ _ _ = Ok _ |- _ => unfold lock_init in Hl; mon_inv end.
+      eexists _, _, _, _. split; [eassumption|right; reflexivity]. }
+  clear E. destruct Hs as (s0 & pct & un & la & Hinit & Hs).
   unfold init_base, try_set_tpt, try_set_ticket_price, try_set_nr_winning in Hinit. mon_inv.
   match goal with Hx : (if negb (ptok =? egld) then _ else _) = Ok _ |- _ => rename Hx into Hif end.
-  constructor; [constructor|..].
-  - reflexivity.
-  - apply (chain_nil _ 0).
-  - apply owned_nil.
-  - apply NoDup_nil.
-  - apply Forall_nil.
-  - split; reflexivity.
-  - constructor; [apply NoDup_nil | intros a _; reflexivity | intros [] |].
-    cbn. unfold paysum. cbn. unfold init_bal.
-    replace ((1 <=? sc_addr) && (sc_addr <=? 24)) with false by (vm_compute; reflexivity). lia.
-  - reflexivity.
-  - cbn. destruct (N.eqb_spec ptok egld) as [->|Hne]; [intros Heq; apply Hlp; symmetry; exact Heq|].
-    cbn in Hif. apply require_ok' in Hif. apply negb_true_iff in Hif. apply N.eqb_neq in Hif. congruence.
-  - intros a [].
+  assert (Htok : ptok <> lp).
+  { destruct (N.eqb_spec ptok egld) as [->|Hne]; [intros Heq; apply Hlp; symmetry; exact Heq|].
+    cbn in Hif. apply require_ok' in Hif. apply negb_true_iff in Hif. apply N.eqb_neq in Hif. congruence. }
+  destruct Hs as [-> | ->].
+  all: constructor; [constructor|..].
+  all: try reflexivity.
+  all: try (apply (chain_nil _ 0)).
+  all: try apply owned_nil.
+  all: try apply NoDup_nil.
+  all: try apply Forall_nil.
+  all: try (split; reflexivity).
+  all: try (intros a []).
+  all: try exact Htok.
+  all: constructor; [apply NoDup_nil | intros a _; reflexivity | intros [] |];
+    cbn; unfold paysum; cbn; unfold init_bal;
+    replace ((1 <=? sc_addr) && (sc_addr <=? 24)) with false by (vm_compute; reflexivity); lia.
 Qed.
 
 (** every state reached from deployment by accepted set-up transactions *)
-Inductive setup_reach : world -> Prop :=
+Inductive setup_reach (v : variant) : world -> Prop :=
 | sr_deploy e lp tpt0 ptok price0 nrw conf ws claim x s :
-    deploy Base e lp tpt0 ptok price0 nrw conf ws claim x = Ok s -> lp <> egld -> setup_reach (world0 s)
+    deploy v e lp tpt0 ptok price0 nrw conf ws claim x = Ok s -> lp <> egld -> setup_reach v (world0 s)
 | sr_step w e b sd c w' r :
-    setup_reach w -> setup_call c -> pay_wf (pay e) -> caller e <> sc_addr ->
-    exec H Base e b sd w c = Ok (w', r) -> setup_reach w'.
+    setup_reach v w -> setup_call c -> pay_wf (pay e) -> caller e <> sc_addr ->
+    exec H v e b sd w c = Ok (w', r) -> setup_reach v w'.
 
-Theorem setup_reach_Pre w : setup_reach w -> exists l, Pre w l.
+Theorem setup_reach_Pre v w : plain v -> setup_reach v w -> exists l, Pre w l.
 Proof.
-  induction 1 as [e lp tpt0 ptok price0 nrw conf ws claim x s Hd Hlp | w e b sd c w' r _ IH Hc Hwf Hcs E].
+  intros Hv. induction 1 as [e lp tpt0 ptok price0 nrw conf ws claim x s Hd Hlp | w e b sd c w' r _ IH Hc Hwf Hcs E].
   - exists []. eapply deploy_Pre; eauto.
-  - destruct IH as [l Hl]. eapply Pre_exec; eauto.
+  - destruct IH as [l Hl]. eapply Pre_exec_plain; eauto.
 Qed.
 
-Corollary setup_reach_PreSel w : setup_reach w -> exists l, PreSel w l.
-Proof. intros Hr. destruct (setup_reach_Pre w Hr) as [l [Hs _ _]]. exists l. exact Hs. Qed.
+Corollary setup_reach_PreSel v w : plain v -> setup_reach v w -> exists l, PreSel w l.
+Proof. intros Hv Hr. destruct (setup_reach_Pre v w Hv Hr) as [l [Hs _ _]]. exists l. exact Hs. Qed.
 
 (** from deployment to the claim period *)
-Theorem deployed_pipeline w0 lf wf ef bf w1 ls ws es bs w2 sd rest :
-  setup_reach w0 ->
+Theorem deployed_pipeline v w0 lf wf ef bf w1 ls ws es bs w2 sd rest :
+  plain v -> setup_reach v w0 ->
   after_interrupted filter_tickets lf w0 = Some wf -> filter_tickets ef bf wf = Ok (w1, 0) ->
   seeds w1 = sd :: rest ->
   after_interrupted (select_winners H) ls w1 = Some ws -> select_winners H es bs ws = Ok (w2, 0) ->
@@ -328,24 +398,24 @@ Theorem deployed_pipeline w0 lf wf ef bf w1 ls ws es bs w2 sd rest :
     nr_winning (st w2) = k /\ (forall t, status (st w2) t = true <-> In t wins) /\ NoDup wins /\
     claimable_payment (st w2) = price (st w0) * k /\ confirmed (st w2) = confirmed (st w0).
 Proof.
-  intros Hr Haf Ef Hs Has Es. destruct (setup_reach_PreSel w0 Hr) as [l Hl]. exists l.
+  intros Hv Hr Haf Ef Hs Has Es. destruct (setup_reach_PreSel v w0 Hv Hr) as [l Hl]. exists l.
   exact (pipeline_to_claims H l w0 lf wf ef bf w1 ls ws es bs w2 sd rest Hl Haf Ef Hs Has Es).
 Qed.
 End HSetup.
 
 (** ** non-vacuity: the concrete history of [Examples] is a set-up history *)
 Lemma step_reach w e b sd c :
-  setup_reach sha256 w -> setup_call c -> pay_wf (pay e) -> caller e <> sc_addr ->
+  setup_reach sha256 Base w -> setup_call c -> pay_wf (pay e) -> caller e <> sc_addr ->
   (exists w' r, exec sha256 Base e b sd w c = Ok (w', r)) ->
-  setup_reach sha256 (step_sha Base w (e, b, sd, c)).
+  setup_reach sha256 Base (step_sha Base w (e, b, sd, c)).
 Proof.
   intros Hr Hc Hwf Hcs (w' & r & E). unfold step_sha, exec_sha. rewrite E. eapply sr_step; eauto.
 Qed.
 
-Example base_confirmed_reachable : setup_reach sha256 base_confirmed.
+Example base_confirmed_reachable : setup_reach sha256 Base base_confirmed.
 Proof.
   unfold base_confirmed, run_sha. cbn [fold_left].
-  assert (H0 : setup_reach sha256 base0).
+  assert (H0 : setup_reach sha256 Base base0).
   { unfold base0. destruct (deploy Base (mkenv 1 0 0 []) 1 100 0 1000 2 10 20 30 x0) as [s|k] eqn:Ed; [|vm_compute in Ed; discriminate].
     eapply sr_deploy; [exact Ed|]. vm_compute. discriminate. }
   repeat (apply step_reach;
